@@ -2,7 +2,7 @@
     conclusions say something (a bond really changes, a charge really moves, the additive branch is really taken, no
     ITS is really produced).  Intermediate values are top-level Definitions (no destructuring lets in statements). *)
 From Coq Require Import List NArith ZArith Bool Lia.
-From SK Require Import lib.Tok lib.LGraph model.C03_Model proof.C03_Proof proof.C03_Glue proof.C03_Backward proof.C03_ExplicitH proof.C03_ExplicitShape proof.C03_ExplicitTotal proof.C03_Expand proof.C03_Default proof.C03_Iso proof.C03_Skeleton proof.C03_StripCounts proof.C03_Wiring proof.C03_WiringCount.
+From SK Require Import lib.Tok lib.LGraph model.C03_Model proof.C03_Proof proof.C03_Glue proof.C03_Backward proof.C03_ExplicitH proof.C03_ExplicitShape proof.C03_ExplicitTotal proof.C03_Expand proof.C03_Default proof.C03_Iso proof.C03_Skeleton proof.C03_StripCounts proof.C03_Wiring proof.C03_WiringCount proof.C03_PairIds.
 Import ListNotations.
 Local Open Scope Z_scope.
 
@@ -232,4 +232,19 @@ Proof.
   destruct ex_explicitH_wiring as (H & Hn & _).
   destruct (explicit_h_wiring ex_T_w ex_T_w' _ (nodupb_NoDup _ Hn) H) as [_ W].
   split; [exact (proj1 (W (1%N, 3%N) (or_intror (or_introl eq_refl))))|exact (proj1 (W (2%N, 4%N) (or_introl eq_refl)))].
+Qed.
+
+(** pair ids: in the rule prepared from ex_tpl_x (O-H . N >> O . H-N) the atoms 1 and 3 share pair id 1 and both are bonded
+    to the template's hydrogen 2; glued on CH3OH . NH3 the ids sit on the images 2 and 3 *)
+Example ex_pair_ids :
+  forallb (fun p => match i_hp (snd p) with None => true | Some _ => false end) (gnodes ex_tpl_x) = true /\
+  option_map (fun a => hp_of a) (label ex_rc_s 1%N) = Some [1%N] /\ option_map (fun a => hp_of a) (label ex_rc_s 3%N) = Some [1%N] /\
+  is_H_i ex_tpl_x 2%N = true /\ nbrs ex_tpl_x 2%N = [1%N; 3%N] /\
+  option_map (fun a => hp_of a) (label ex_T_s 2%N) = Some [1%N] /\ option_map (fun a => hp_of a) (label ex_T_s 3%N) = Some [1%N] /\
+  option_map (fun a => hp_of a) (label ex_T_s 1%N) = Some [].
+Proof. vm_compute. repeat split; reflexivity. Qed.
+Example ex_share_pair : share_pair ex_T_s 2%N 3%N.
+Proof.
+  exists 1%N, (match label ex_T_s 2%N with Some a => a | None => H_inode end), (match label ex_T_s 3%N with Some a => a | None => H_inode end).
+  vm_compute. repeat split; auto.
 Qed.
